@@ -22,10 +22,35 @@ def build(wt):
 
 
 def suite(wt):
+    """the repository's suite has no per-test time limit: a test that loops is killed after 20 minutes and reported as a hang"""
     sh("make -C tests clean", cwd=wt)
-    rc, out = sh("make -k -j8 check 2>&1 | grep -E '^# (TOTAL|PASS|FAIL|ERROR|XFAIL|SKIP)'", cwd=wt, timeout=7200)
+    p = subprocess.Popen("exec setsid make -k -j8 check > suite.log 2>&1", shell=True, cwd=wt)
+    hung = []
+    t0 = time.time()
+    while p.poll() is None:
+        time.sleep(5)
+        if time.time() - t0 > 1200:
+            # kill test programs that are still running (executables of the worktree's tests directory)
+            for pid in os.listdir("/proc"):
+                if not pid.isdigit():
+                    continue
+                try:
+                    exe = os.readlink("/proc/%s/exe" % pid)
+                except OSError:
+                    continue
+                if exe.startswith(wt + "/tests/"):
+                    hung.append(os.path.basename(exe))
+                    try:
+                        os.kill(int(pid), 9)
+                    except OSError:
+                        pass
+            t0 = time.time() - 900          # give the rest five more minutes, then look again
+    out = open(os.path.join(wt, "suite.log"), errors="replace").read()
     d = dict(re.findall(r"# (\w+):\s+(\d+)", out))
-    return {k: int(v) for k, v in d.items()}
+    res = {k: int(v) for k, v in d.items()}
+    if hung:
+        res["hung_tests_killed"] = sorted(set(hung))
+    return res
 
 
 def main():
